@@ -361,8 +361,9 @@ def _top_loops(case):
 
 
 def m_fuse_distance(rec, clause, detail, finding):
-    """LoopFuseTrans accepted two loops that touch a common variable, at least
-    one of them writing it, with different subscripts (or a scalar)."""
+    """LoopFuseTrans accepted two loops that touch a common array, at least one
+    of them writing it, through different subscripts.  (No scalar-only case fails
+    on the unchanged tree, so scalars are deliberately not covered.)"""
     if rec["trans"] != "LoopFuseTrans" or clause != "SameObservable":
         return False
     loops = _top_loops(rec["case"])
@@ -375,7 +376,7 @@ def m_fuse_distance(rec, clause, detail, finding):
             continue
         w = any(x[0] for x in a1[nm]) or any(x[0] for x in a2[nm])
         subs = {x[1] for x in a1[nm]} | {x[1] for x in a2[nm]}
-        if w and (len(subs) > 1 or subs == {""}):
+        if w and len(subs) > 1:     # an array accessed through different subscripts
             return True
     return False
 
